@@ -129,6 +129,9 @@ type Wire struct {
 	// virtual-time watchdog: after MaxVirtual every I/O call fails, so a run that would never end does
 	MaxVirtual time.Duration
 	Overrun    bool
+	Spin       bool // Overrun because of a busy loop at one virtual instant
+	spinAt     time.Duration
+	spinN      int
 	// counters
 	Filtered int
 	Drained  int
@@ -142,11 +145,26 @@ func (w *Wire) since() time.Duration { return time.Since(w.epoch) }
 
 var errWatchdog = errors.New("harness watchdog: virtual time limit exceeded")
 
-// expired reports (with the lock held) whether the virtual-time limit has passed.
+// expired reports (with the lock held) whether the virtual-time limit has passed, or whether the code
+// under test is spinning: an enormous number of I/O calls without the virtual clock moving at all
+// (e.g. a retry loop around a read whose deadline is already in the past) would otherwise never end.
 func (w *Wire) expired() bool {
-	if w.MaxVirtual > 0 && time.Since(w.epoch) > w.MaxVirtual {
+	if w.Overrun {
+		return true
+	}
+	now := time.Since(w.epoch)
+	if w.MaxVirtual > 0 && now > w.MaxVirtual {
 		w.Overrun = true
 		return true
+	}
+	if now == w.spinAt {
+		w.spinN++
+		if w.spinN > 300_000 {
+			w.Overrun, w.Spin = true, true
+			return true
+		}
+	} else {
+		w.spinAt, w.spinN = now, 0
 	}
 	return false
 }
@@ -160,6 +178,9 @@ func (w *Wire) log(e Event) {
 	e.At = w.since()
 	if w.Returned {
 		w.LateOps = append(w.LateOps, fmt.Sprintf("%s#%d.%s after return", e.Kind, e.Handle, e.Op))
+	}
+	if w.spinN > 50_000 {
+		return // a busy loop at one virtual instant: stop recording, the watchdog will end it
 	}
 	w.Ledger = append(w.Ledger, e)
 }
